@@ -400,16 +400,18 @@ def run_validate_model(name, wb, outlists, tols, perturbs, broken, timeout=1800)
 
 def canon_istate(s):
     return json.dumps(dict(inp=s['inp'], built=sorted(s['built']), val=s['val'],
-                           prev=s['prev'], passes=s['passes'], todo=sorted(s['todo'])),
+                           prev=s['prev'], passes=s['passes'], todo=sorted(s['todo']),
+                           changed=s.get('changed', False)),
                       sort_keys=True)
 
 
-def gen_iter_graph(name, wb, pool, choices, acyclic, settable=None, timeout=1800, depth=0):
+def gen_iter_graph(name, wb, pool, choices, acyclic, settable=None, timeout=1800, depth=0,
+                   src='NoData'):
     d = tlc.new_scratch('iter')
     mod = f'MC_{name}_iter'
     ch = W.tla_set(f'<<{n}, {t}>>' for n, t in choices)
     with open(os.path.join(d, mod + '.tla'), 'w') as f:
-        f.write(W.tla_constants(wb, pool, 'NoData', mod, settable=settable,
+        f.write(W.tla_constants(wb, pool, src, mod, settable=settable,
                                 extends='EngineIter',
                                 extra=f'MCIterChoices == {ch}\nMCAcyclic == {"TRUE" if acyclic else "FALSE"}'))
     with open(os.path.join(d, 'gen.cfg'), 'w') as f:
